@@ -52,7 +52,20 @@ pub fn gen_files(t: &mut Tape, gates: &Gates) -> Vec<FileCase> {
                 let d = *t.pick(&["", " ", "\n", "\r\n", "(* only a comment *)", "(* c *)\n", "?", "??", "@", "~", "!?@", "€", "?\n", "? ", ";", "END_VAR", "(* never closed", "'"]);
                 (d.to_string(), "degenerate")
             }
-            0 | 1 | 2 => (spell_unit(&unit, gates), "valid"),
+            0 | 1 => (spell_unit(&unit, gates), "valid"),
+            2 => {
+                // a fault of a kind chosen uniformly (every published rule code is met as the only
+                // diagnostic of a set now and then), from a unit large enough to have a site for it
+                let kd = ALL_FAULTS[t.below(ALL_FAULTS.len())];
+                let mut big = Profile::default();
+                big.prefix = p.prefix.clone();
+                big.max_progs = 1;
+                big.sfc = false;
+                match unit_with_fault_of(kd, &sub, gates, &big) {
+                    Some(fu) => (spell_unit(&fu, gates), "semantic-fault"),
+                    None => (spell_unit(&unit, gates), "valid"),
+                }
+            }
             3 if !kinds.is_empty() => {
                 let kd = kinds[t.below(kinds.len())];
                 let s = t.below(unit.sites[kd.index()]);
@@ -163,6 +176,13 @@ fn check_tape(tape: &[u8], gates: &Gates, codes: &[String], stats: &mut Stats, c
         if counting {
             stats.case(files.len() >= 2 || any_faulty, hash_str(&format!("files{}{}", oi, files.iter().map(|f| f.text.clone()).collect::<String>())));
             stats.class("check.files");
+            if oi == 0 {
+                // which problem codes the set as a whole is answered with
+                let mut cs: Vec<String> = o.diags.iter().map(|d| d.code.clone()).collect();
+                cs.sort();
+                cs.dedup();
+                stats.class(&format!("check.codes.{}", if cs.is_empty() { "none".to_string() } else { cs.join("+") }));
+            }
         }
         channels_agree(&o, codes, "check <files>").map_err(|(k, d)| fail("channels", &k, d))?;
         let key = (o.status, keyed(&o.diags));
